@@ -84,7 +84,7 @@ def run(ctx):
             tailns = lang == "CPP" and rng.random() < 0.3
             if tailns:
                 txt += "namespace tailns {\nint tv;\n}\n"
-            k = rng.random()
+            k = rng.random() if not tailns else 0.4      # after a namespace at the end: always some surplus blank lines
             if k < 0.3:
                 txt = txt.rstrip("\n")            # no line break at end of file
             elif k < 0.5:
@@ -105,9 +105,9 @@ def run(ctx):
                         "nl_end_of_file": rng.choice(["ignore", "add", "remove", "force"]), "nl_end_of_file_min": rng.choice([0, 1, 2, 3]),
                         "nl_start_of_file": rng.choice(["ignore", "ignore", "add", "remove", "force"]),
                         "nl_start_of_file_min": rng.choice([0, 1, 2])}
-                if tailns and rng.random() < 0.5:
+                if tailns and rng.random() < 0.7:
                     # the last newline chunk follows a namespace brace: do_blank_lines() does not force it to 1
-                    opts.update({"nl_before_namespace": 2, "nl_end_of_file": rng.choice(["force", "add"]), "nl_end_of_file_min": rng.choice([1, 2])})
+                    opts.update({"nl_before_namespace": 2, "nl_end_of_file": rng.choice(["force", "force", "add"]), "nl_end_of_file_min": rng.choice([1, 2])})
                 jobs.append(pipeline.Job("gen%d" % i, sc.cfg(None, opts), p, lang, {"opts": opts, "kind": "gen", "text": txt}))
         pairs = [p for p in unc.test_pairs() if os.path.getsize(p[2]) < 30000]
         rng.shuffle(pairs)
